@@ -40,6 +40,9 @@ PROGRAMS = [
     ("def t(c: Parameter[bool], a: bool, b: bool) -> bool:\n\tr = a and c\n\tc = b\n\treturn r ^ c", dict(c=[True, False])),
     ("def t(k: Parameter[Qint[2]], a: Qint[2]) -> Qint[2]:\n\tk = k + a\n\treturn k + 1", dict(k=[0, 1, 3])),
     ("def t(c: Parameter[bool], a: bool, b: bool) -> bool:\n\tdef g(c: bool, y: bool) -> bool:\n\t\treturn c and not y\n\treturn g(a, b) ^ c", dict(c=[True, False])),
+    # parameters WITH DEFAULT VALUES bound to falsy values (rejected, or the bound value - never the default)
+    ("def t(a: bool, b: bool, c: Parameter[bool] = True) -> bool:\n\treturn (a and b) ^ c", dict(c=[False, True])),
+    ("def t(a: Qint[2], b: bool, k: Parameter[Qint[2]] = 3) -> Qint[2]:\n\treturn a + k if b else a", dict(k=[0, 1, 3])),
     # results that depend on the DECLARED width of the parameter (the value alone would be typed narrower)
     ("def t(c: Parameter[Qint[4]], a: Qint[4]) -> Qint[4]:\n\treturn (c << 2) + a", dict(c=[0, 1, 2, 3])),
     ("def t(c: Parameter[Qint[4]], a: Qint[2]) -> Qint[4]:\n\treturn c + a", dict(c=[1, 3, 5])),
@@ -192,6 +195,12 @@ def job(a):
             kw = dict(reversed(list(kw.items())))          # keyword order must not matter
         import copy as _copy
         kw_passed = _copy.deepcopy(kw)
+        # sequence values may be handed over as any iterable (tuple / iterator / generator / reversed): the values are what is bound
+        for k_ in list(kw_passed):
+            v_ = kw_passed[k_]
+            if isinstance(v_, (list, tuple)) and not any(isinstance(x_, (list, tuple)) for x_ in v_):
+                how = ci % 4
+                kw_passed[k_] = [list(v_), tuple(v_), iter(list(v_)), (x_ for x_ in list(v_))][how]
         try:
             qf = uq.bind(**kw_passed)
         except Exception as ex:  # noqa
